@@ -839,6 +839,10 @@ class UnionConverter(JsonConverter[T, np.object_]):
         if json_object is None:
             if self._cases[0] is None:
                 return None  # type: ignore
+            elif self._simple and None in self._json_type_to_case_index:
+                # a case that can itself be null (an alias of an optional or of a nullable union)
+                case = self._cases[self._json_type_to_case_index[None]]  # type: ignore
+                return case[0](case[1].from_json(None))  # type: ignore
             else:
                 raise ValueError("None is not a valid for this union type")
 
